@@ -13,12 +13,17 @@
   (invariants of pass 1), fields that fit — hence round-trips.
   `assembled_debug_roundtrip` (Lemmas/AssembledWFDebug.lean): the same with debug symbols — the line blocks are strictly
   ascending because `lookup_line` is injective (C24.rev_lookup_inverts) and within the widths because no block wraps.
+  `source_roundtrip` (Lemmas/ParserFacts, ParserIdx, ParserOut, ParserDischarge): all remaining side hypotheses are facts about
+  the output of `parse_ast` (string tokens below 64 K, `.blkw 0` rejected, labels are tokens of the text so positions and
+  upper-cased names fit 64 bits for a source below 2^64/12 bytes, statements on strictly increasing lines), so ANY source
+  text that parses and assembles, with or without debug symbols, gives a file that round-trips.
   Not proved: `WF` of linked files. That gap is what the correspondence check covers: 2,500+ object files from assembling and linking are
   serialized and read back by implementation and model, and both must return the original.
 -/
 import Lc3V.Lemmas.BinRoundtrip2
 import Lc3V.Lemmas.AssembledWF
 import Lc3V.Lemmas.AssembledWFDebug
+import Lc3V.Lemmas.ParserDischarge
 set_option linter.unusedSimpArgs false
 namespace Lc3V.C17
 open Lc3V Bin
@@ -84,8 +89,19 @@ theorem assembled_debug_roundtrip (stmts : List Stmt) (src : List Char) (obj : O
   ⟨assembled_wf_debug stmts src obj h hstr hlab hfill hsized hl hsrc,
    roundtrip obj (assembled_wf_debug stmts src obj h hstr hlab hfill hsized hl hsrc)⟩
 
+/-- **source level**: for ANY source text (below 2^64/12 bytes) that parses and assembles — with or without debug symbols —
+    the object file is well-formed and deserializing its serialization gives it back.  All side hypotheses of
+    `assembled_roundtrip` / `assembled_debug_roundtrip` are facts about parser output (Lemmas/ParserDischarge.lean). -/
+theorem source_roundtrip (src : List Char) (stmts : List Stmt) (dbg : Bool) (obj : ObjFile) (hp : parseAst src = .ok stmts)
+    (hsrc : 12 * blen src < 2 ^ 64) (h : assemble stmts (if dbg then some src else none) = .ok obj) :
+    WF obj ∧ deserialize (serialize obj) = some obj := by
+  obtain ⟨hstr, hsized, hlab, hfill, hl⟩ := parsed_program_facts src stmts hp hsrc
+  cases dbg with
+  | false => exact assembled_roundtrip stmts obj h hstr hlab hfill
+  | true => exact assembled_debug_roundtrip stmts src obj h hstr hlab hfill hsized hl (by omega)
+
 def obligations : List Lean.Name :=
-  [``roundtrip, ``assembled_roundtrip, ``assembled_debug_roundtrip, ``Lc3V.assembled_wf_debug, ``Lc3V.assembled_wf_nodebug, ``wf_empty, ``Lc3V.Bin.deserialize_serialize, ``Lc3V.Bin.fromUtf8_utf8, ``Lc3V.Bin.unle_le, ``Lc3V.Bin.chunks3_words,
+  [``roundtrip, ``source_roundtrip, ``Lc3V.parsed_program_facts, ``Lc3V.upperC_length, ``assembled_roundtrip, ``assembled_debug_roundtrip, ``Lc3V.assembled_wf_debug, ``Lc3V.assembled_wf_nodebug, ``wf_empty, ``Lc3V.Bin.deserialize_serialize, ``Lc3V.Bin.fromUtf8_utf8, ``Lc3V.Bin.unle_le, ``Lc3V.Bin.chunks3_words,
    ``Lc3V.Bin.chunks2_words, ``Lc3V.Bin.read_block, ``Lc3V.Bin.read_label, ``Lc3V.Bin.read_lineBlock, ``Lc3V.Bin.read_src,
    ``Lc3V.Bin.read_rel, ``Lc3V.Bin.readChunks_items, ``Lc3V.Bin.fromBlocks_self, ``Lc3V.insAll_nil]
 
